@@ -199,6 +199,16 @@ func cmdSSA(args []string) {
 		for k, fn := range V.funcs {
 			if strings.HasSuffix(k, "::"+a) {
 				fn.WriteTo(os.Stdout)
+				loops := findLoops(fn)
+				for h, li := range loops {
+					var ph []string
+					for _, in := range h.Instrs {
+						if p, ok := in.(*ssa.Phi); ok {
+							ph = append(ph, p.Comment)
+						}
+					}
+					fmt.Printf("loop %d: header block %d phis %v\n", li.ordinal, h.Index, ph)
+				}
 			}
 		}
 	}
